@@ -756,7 +756,7 @@ def run(ctx):
             len(sysc), len(SYS_INITS), ", ".join(SYS_CTX))
     for label, src in sysc:
         cases.append(("placement", src, "any", None))
-    ngen = int(os.environ.get("C12_N", ctx.scale(60, 2400)))
+    ngen = int(os.environ.get("C12_N", ctx.scale(60, 2000)))
     gens = {}
     for i in range(ngen):
         g = Gen(ctx.rng, ctx.rng.choice([0.0, 0.0, 0.05, 0.15]), ctx.rng.choice([0.3, 0.6, 1.0]))
